@@ -398,9 +398,41 @@ class RuleElection:
         return "drift" if nd >= el["s"] else "warning" if nd + nw >= el["s"] else None
 
 
+_RUN = collections.Counter()
+
+
+def _tally(case, obs):
+    _RUN["calls"] += len(obs["ops"])
+    _RUN["resets_executed"] += sum(1 for o in obs["ops"] if o[0] == "r")
+    _RUN["member_comparisons"] += (len(obs["ops"]) + 1) * len(case["members"])
+    prev = [None] * len(case["members"])
+    first = {}
+    for j, tw in enumerate(obs["twins"]):
+        for i, o in enumerate(tw):
+            if o[0] == "drift" and prev[i] != "drift":
+                _RUN["member_drift_events"] += 1
+                _RUN["member_drift_events_" + case["members"][i]["det"]] += 1
+                first.setdefault(i, j)
+            if o[0] == "warning" and prev[i] != "warning":
+                _RUN["member_warning_events"] += 1
+            prev[i] = o[0]
+    _RUN["cases_with_members_drifting_at_different_calls"] += len(set(first.values())) >= 2
+    for op, e in zip(obs["ops"], obs["ens"]):
+        if op[0] == "u":
+            _RUN["ensemble_verdict_" + str(e["ds"])] += 1
+    _RUN["calls_with_split_vote"] += sum(1 for op, tw in zip(obs["ops"], obs["twins"])
+                                         if op[0] == "u" and 0 < sum(o[0] == "drift" for o in tw) < len(tw))
+
+
+def extra(ctx):
+    return {"run_stats": dict(_RUN)}
+
+
 def direct_check(case, obs):
     if "__exception__" in obs:
         return [f"ensemble run raised {obs['__exception__']}: {obs['__message__']}"]
+    if not case.get("_shrinking"):
+        _tally(case, obs)
     msgs = []
     specs = case["members"]
     keys = [sp["key"] for sp in specs]
@@ -598,18 +630,32 @@ def draw_cols(rng, det, d):
 
 
 def draw_election(rng, n):
+    """parameters biased towards verdicts that are reachable: a member reports drift for one call only, so several
+    members rarely alarm in the same call unless they are clones; ConfirmedElection bridges the gap with wait_time"""
     k = rng.choice(["maj", "min", "ord", "conf", "conf", "pos"])
+    small = lambda hi: rng.choice([1, 1, 2, rng.randint(1, max(1, hi))])
     if k == "pos":
         ws = rng.sample(range(1, n + 3), n)
-        return {"kind": "pos", "ws": ws, "thr": max(1, rng.randint(min(ws, default=1), max(1, sum(ws) // 2)))}
+        lo = min(ws, default=1)
+        return {"kind": "pos", "ws": ws, "thr": rng.randint(lo, max(lo, sum(ws) // 2))}
     if k == "maj":
         return {"kind": "maj"}
     if k == "min":
-        return {"kind": "min", "a": rng.randint(1, max(1, n))}
+        return {"kind": "min", "a": small(n)}
     if k == "ord":
-        a = rng.randint(0, max(1, n - 1)); c = rng.randint(1 if a == 0 else 0, max(1, n - a))
+        a = rng.choice([0, 1, 1, rng.randint(0, max(1, n - 1))])
+        c = rng.choice([1, 1, rng.randint(1, max(1, n - a))]) if a == 0 else rng.choice([0, 0, 1, rng.randint(0, max(1, n - a))])
         return {"kind": "ord", "a": a, "c": c}
-    return {"kind": "conf", "s": rng.randint(1, max(1, n)), "w": rng.randint(0, 6)}
+    return {"kind": "conf", "s": small(n), "w": rng.choice([0, 1, 3, 10, 30, rng.randint(0, 60)])}
+
+
+def clone_some(rng, members):
+    """make some members exact clones (same detector, arguments and columns) of their predecessor: they alarm in the
+    same call, which is what lets counting elections with a threshold above one reach a drift verdict"""
+    for i in range(1, len(members)):
+        if rng.random() < 0.3:
+            members[i] = dict(members[i - 1], key=members[i]["key"])
+    return members
 
 
 def gen_stream(ctx, rng, idx, n_members=None, kinds=None):
@@ -622,6 +668,8 @@ def gen_stream(ctx, rng, idx, n_members=None, kinds=None):
     dets = kinds if kinds is not None else rng.choices(pool, weights, k=nm)
     keys = rng.sample(KEYS, len(dets))          # insertion order differs from alphabetical order
     members = [{"key": k, "det": det, "args": draw_args(rng, det), "cols": draw_cols(rng, det, d)} for k, det in zip(keys, dets)]
+    if kinds is None:
+        clone_some(rng, members)
     shifts = []
     for j in range(d):
         pts = sorted(rng.sample(range(40, n - 10), rng.randint(1, 3)))
@@ -645,7 +693,8 @@ def gen_batch(ctx, rng, idx, n_members=None):
     nm = rng.randint(2, 5) if n_members is None else n_members
     dets = rng.choices(["HDDDM", "CDBD", "KDQB", "NNDVI"], [3, 3, 3, 2], k=nm)
     keys = rng.sample(KEYS, len(dets))
-    members = [{"key": k, "det": det, "args": draw_args(rng, det), "cols": draw_cols(rng, det, d)} for k, det in zip(keys, dets)]
+    members = clone_some(rng, [{"key": k, "det": det, "args": draw_args(rng, det), "cols": draw_cols(rng, det, d)}
+                               for k, det in zip(keys, dets)])
     nb = rng.randint(8, 14) if not ctx.thorough else rng.randint(10, 24)
     means, sds = [0.0] * d, [1.0] * d
     change = {j: sorted(rng.sample(range(2, nb), rng.randint(1, 2))) for j in range(d)}
@@ -668,7 +717,7 @@ def gen_batch(ctx, rng, idx, n_members=None):
 def gen_cases(ctx):
     rng = ctx.rng
     cases = []
-    ns, nb = ctx.scale(34, 400), ctx.scale(22, 250)
+    ns, nb = ctx.scale(34, 300), ctx.scale(22, 200)
     # degenerate sizes: no member, one member
     for nm in (0, 1):
         c = gen_stream(ctx, rng, -1, n_members=nm); c["n"] = 60; c["ops"] = [o for o in c["ops"] if o[0] == "r" or o[1] < 60]
@@ -700,10 +749,6 @@ def gen_cases(ctx):
         ctx.stats["static_resets"] = ctx.stats.get("static_resets", 0) + sum(1 for o in c["ops"] if o[0] == "r")
         ctx.stats["set_references"] = ctx.stats.get("set_references", 0) + sum(1 for o in c["ops"] if o[0] == "s")
     return cases
-
-
-def extra(ctx):
-    return {}
 
 
 def signature(case, obs, msgs):
